@@ -517,10 +517,104 @@ func LiftStructGood(a int) int {
 	}
 	return sink(q.p)
 }
+
+// ---- audits (thorough.go): looked-at errors, lock balance, comma-ok discipline --------
+func ErrFailGood(a int) (int, error) {
+	v, err := acquire(a)
+	if err != nil {
+		return 0, err
+	}
+	return *v, nil
+}
+
+// the check is there, what it decides is lost
+func ErrFailBad(a int) (int, error) {
+	v, err := acquire(a)
+	if err != nil {
+	}
+	if v == nil {
+		return 1, nil
+	}
+	return *v, nil
+}
+
+// a sentinel is singled out: going on is by design
+func ErrFailSentinel(a int) (int, error) {
+	v, err := acquire(a)
+	if err == errX {
+		return 0, nil
+	}
+	if err != nil {
+		return 0, err
+	}
+	return *v, nil
+}
+
+type lockedBox struct {
+	mu sync.Mutex
+	m  map[int]*int
+}
+
+func (b *lockedBox) BalGood(k int) int {
+	b.mu.Lock()
+	if k > 3 {
+		b.mu.Unlock()
+		return 0
+	}
+	b.mu.Unlock()
+	return k
+}
+
+func (b *lockedBox) BalBad(k int) int {
+	b.mu.Lock()
+	if k > 3 {
+		return 0
+	}
+	b.mu.Unlock()
+	return k
+}
+
+// locked and released by a deferred call only on one branch
+func (b *lockedBox) BalCondDefer(k int) int {
+	if k > 3 {
+		b.mu.Lock()
+		defer b.mu.Unlock()
+	}
+	return k
+}
+
+func (b *lockedBox) BalRelock(k int) int {
+	b.mu.Lock()
+	if k > 3 {
+		b.mu.Lock()
+	}
+	b.mu.Unlock()
+	return k
+}
+
+func (b *lockedBox) OkGood(k int) int {
+	b.mu.Lock()
+	defer b.mu.Unlock()
+	p, ok := b.m[k]
+	if !ok {
+		return 0
+	}
+	return *p
+}
+
+func (b *lockedBox) OkBad(k int) int {
+	b.mu.Lock()
+	defer b.mu.Unlock()
+	p, ok := b.m[k]
+	if ok {
+		return 0
+	}
+	return *p
+}
 `
 
 func runControls(c *Ctx, rep *Report) {
-	ru := rep.Rule(rep.Prop+"-CTRL", "controls", 46, "positive/negative controls of the engines on the fixture package (virtual, via overlay): every engine must accept its Good shapes and reject its Bad ones on this very run")
+	ru := rep.Rule(rep.Prop+"-CTRL", "controls", 55, "positive/negative controls of the engines on the fixture package (virtual, via overlay): every engine must accept its Good shapes and reject its Bad ones on this very run")
 	if c.Pkg(controlsPkg) == nil {
 		ru.Err("fixture", "fixture package not loaded")
 		return
@@ -829,6 +923,64 @@ func runControls(c *Ctx, rep *Report) {
 		}
 		w, _ := (&Cut{Fn: f, Target: isSink, EdgeCut: edgeNil(func(v ssa.Value) bool { ci, i := resultOf(v); return ci == acq && i == 1 }, true)}).Run(c)
 		expect("lift guard in a local predicate "+x.n, x.bad, w != "")
+	}
+	// audits: a looked-at error fails the function (A2), lock balance (A3), comma-ok discipline (A4)
+	for _, x := range []struct {
+		n   string
+		bad bool
+	}{{"ErrFailGood", false}, {"ErrFailBad", true}, {"ErrFailSentinel", false}} {
+		f := fn(x.n)
+		if f == nil {
+			ru.Err("control "+x.n, "fixture function missing")
+			continue
+		}
+		sr := scratch()
+		sr.errorsFail(f)
+		expect("audit A2 "+x.n, x.bad, nviol(sr) > 0)
+	}
+	for _, x := range []struct {
+		n   string
+		bad bool
+	}{{"lockedBox).BalGood", false}, {"lockedBox).BalBad", true}, {"lockedBox).BalCondDefer", false}, {"lockedBox).BalRelock", true}} {
+		f := fn(x.n)
+		if f == nil {
+			ru.Err("control "+x.n, "fixture function missing")
+			continue
+		}
+		lf := computeLockFlow(f, heldSet{})
+		bad := false
+		for ret, h := range lf.exitBal {
+			for k := range h {
+				if !lf.exitDeferred[ret][k] {
+					bad = true
+				}
+			}
+		}
+		for _, b := range f.Blocks {
+			for _, in := range b.Instrs {
+				if call, ok := in.(*ssa.Call); ok {
+					if op, isM := mutexOps[calleeKey(call)]; isM && op.acquire {
+						if _, held := lf.must[in][pathOf(call.Call.Args[0])]; held {
+							bad = true
+						}
+					}
+				}
+			}
+		}
+		expect("audit A3 "+x.n, x.bad, bad)
+	}
+	for _, x := range []struct {
+		n   string
+		bad bool
+	}{{"lockedBox).OkGood", false}, {"lockedBox).OkBad", true}} {
+		f := fn(x.n)
+		if f == nil {
+			ru.Err("control "+x.n, "fixture function missing")
+			continue
+		}
+		sr := scratch()
+		commaOkDiscipline(c, sr, []*ssa.Function{f})
+		expect("audit A4 "+x.n, x.bad, nviol(sr) > 0)
 	}
 	cellsOf := func(f *ssa.Function, name string) (promoted, kept int) {
 		allInstrsIn(f, func(in ssa.Instruction) {
